@@ -48,6 +48,10 @@ func Extreme(kind string) (time.Time, bool) {
 	switch kind {
 	case "zero":
 		return time.Time{}, true
+	case "zero-local": // the zero instant carried in a non-nil location
+		return time.Time{}.In(time.FixedZone("X", 0)), true
+	case "zero-unix":
+		return time.Unix(-62135596800, 0).UTC(), true
 	case "y10000":
 		return time.Date(10000, 1, 1, 0, 0, 0, 0, time.UTC), true
 	case "negative":
@@ -576,4 +580,39 @@ func Compare(res Result, want spec.Outcome) string {
 		}
 	}
 	return ""
+}
+
+// Recanon recomputes the canonical record from a live returned object (pointer / slice results): used to verify that a
+// result does not change after it was returned (later calls, reused buffers). Returns nil for plain values.
+func Recanon(v any) spec.Rec {
+	switch x := v.(type) {
+	case *types.Device:
+		return DeviceRec(*x)
+	case []types.Device:
+		r := spec.Rec{}
+		for i, dv := range x {
+			for k, v := range DeviceRec(dv) {
+				r[fmt.Sprintf("%d.%s", i, k)] = v
+			}
+		}
+		return r
+	case *types.Status:
+		return StatusRec(*x)
+	case *types.Card:
+		return CardRec(*x)
+	case *types.TimeProfile:
+		return ProfileRec(*x)
+	case *types.Time:
+		return spec.Rec{"serial": fmt.Sprint(uint32(x.SerialNumber)), "datetime": DateTimeText(x.DateTime)}
+	case *types.Event:
+		return spec.Rec{"serial": fmt.Sprint(uint32(x.SerialNumber)), "index": fmt.Sprint(x.Index), "type": fmt.Sprint(x.Type), "granted": b2s(x.Granted), "door": fmt.Sprint(x.Door),
+			"direction": fmt.Sprint(x.Direction), "card": fmt.Sprint(x.CardNumber), "timestamp": DateTimeText(x.Timestamp), "reason": fmt.Sprint(x.Reason)}
+	case *types.DoorControlState:
+		return spec.Rec{"serial": fmt.Sprint(uint32(x.SerialNumber)), "door": fmt.Sprint(x.Door), "state": fmt.Sprint(int(x.ControlState)), "delay": fmt.Sprint(x.Delay)}
+	case *types.EventIndex:
+		return spec.Rec{"serial": fmt.Sprint(uint32(x.SerialNumber)), "index": fmt.Sprint(x.Index)}
+	case *types.Result:
+		return spec.Rec{"serial": fmt.Sprint(uint32(x.SerialNumber)), "ok": b2s(x.Succeeded)}
+	}
+	return nil
 }
